@@ -28,6 +28,7 @@ def main():
         bad += 1
     # value plumbing
     from . import celx
+    print("arena allocator:", "built" if (core.ROOT / ".build" / "arena.so").exists() else "not available (checks run slower)")
     vals = [{"t": "int", "v": -2**63}, {"t": "uint", "v": 2**64 - 1}, {"t": "double", "v": -0.0}, {"t": "double", "v": 5e-324},
             {"t": "string", "v": "a\U0001f431\"\\\n"}, {"t": "bytes", "v": b"\x00\xff"}, {"t": "bool", "v": True}, {"t": "null"},
             {"t": "list", "v": [{"t": "int", "v": 1}, {"t": "string", "v": "x"}]},
